@@ -165,9 +165,30 @@ PROPS = {
             "for this partial record.",
         "exhaustive_quick": False,
     },
+    "C02": {
+        "lean_modules": ["TemporalModel.Props.C02"],
+        "suites": ["c02", "c04", "c05", "c06", "c09", "c17", "c18"],
+        "extra_profiles": ["release"],
+        "level_text": "Proof: C02_date_results / C02_date_time_results / C02_instant_results / C02_time_results / "
+                      "C02_duration_results / C02_year_month_results show that every value a modelled constructor, add, subtract, "
+                      "round, with, from_partial, until or since returns is well-formed and inside the range (InRange, "
+                      "isoDtWithinValidLimits, |ns| <= 8.64e21, IsoTime.isValid, Dur.ValidSpec, year-month limits), for all "
+                      "arguments; C02_*_boundary place every boundary exactly (last representable value accepted, next one a "
+                      "RangeError, both overflow modes); C02_instant_add_exact (with C04/C05/C06/C09's exact-arithmetic theorems) "
+                      "says a result is the exact value or a RangeError, never clamped or wrapped. Tie: a boundary suite (c02: every "
+                      "type, operands within a few units of each limit and far beyond) plus the arithmetic suites, on a build with "
+                      "overflow checks AND on a release build without them (wrapping arithmetic).",
+        "level_note": "Trusted: Lean kernel (+propext, Classical.choice, Quot.sound); hand model; returned values are observed "
+                      "through their getters (the canonical outcome text), so equality with a model value that is proved well-formed "
+                      "is well-formedness of the returned value. ZonedDateTime and non-ISO calendar results are C13/C14/C16.",
+        "why_difference_is_violation":
+            "The model returns only well-formed in-range values and places the boundaries exactly (C02_* theorems); the "
+            "implementation returned a different value, accepted an out-of-range result or rejected a representable one.",
+    },
     "C03": {
         "lean_modules": ["TemporalModel.Props.C03"],
         "suites": ["c03", "c04", "c05", "c06", "c08", "c09", "c10", "c17", "c18"],
+        "extra_profiles": ["release"],
         "level_text": "Proof: every panic site of the modelled code (unreachable!/assert!/temporal_assert!/unchecked index or unwrap/"
                       "unbounded loop) is an explicit `.panic` or `.err .assert` outcome of the model, and C03_constructors, "
                       "C03_option_resolvers, C03_time_instant, C03_duration, C03_plain_date, C03_plain_date_time, "
